@@ -1596,6 +1596,8 @@ fn check_ws_write(c: &WsWriteCase) -> CaseReport {
     let mut blocked = 0u32;
     // the harness's own retry bounds were exhausted: the case says nothing about the adapter
     let mut gave_up = false;
+    let mut flooded = false;
+    let flood_limit: usize = 4 * c.chunks.iter().map(|l| *l as usize + 16).sum::<usize>() + 65536;
     let res = crate::panichook::guarded(|| {
         for (i, len) in c.chunks.iter().enumerate() {
             let data = msg_bytes(i, *len as usize, false);
@@ -1605,6 +1607,12 @@ fn check_ws_write(c: &WsWriteCase) -> CaseReport {
             while off < data.len() {
                 if tries >= 2_000_000 {
                     gave_up = true;
+                    break;
+                }
+                // an adapter that queues the message again at every retry floods the peer: once the peer holds far more
+                // than was ever written there is nothing left to learn from retrying (the verdict below sees the surplus)
+                if tries % 64 == 63 && io.lock().unwrap().out.len() > flood_limit {
+                    flooded = true;
                     break;
                 }
                 tries += 1;
@@ -1617,10 +1625,17 @@ fn check_ws_write(c: &WsWriteCase) -> CaseReport {
                 }
             }
             expected.extend_from_slice(&data[..off]);
+            if flooded {
+                break;
+            }
             let mut f = 0;
             loop {
                 if f >= 2_000_000 {
                     gave_up = true;
+                    break;
+                }
+                if f % 64 == 63 && io.lock().unwrap().out.len() > flood_limit {
+                    flooded = true;
                     break;
                 }
                 f += 1;
